@@ -162,12 +162,13 @@ static size_t verif_in_len;        /* its total length */
 static size_t verif_delivered;     /* bytes the kernel has handed over so far */
 static size_t verif_consumed;      /* bytes handed to callbacks / skipped so far */
 static bool verif_eof_allowed;
+static bool verif_read_hard_error;  /* the kernel reported a read error other than EAGAIN */
 
 cjet_ssize_t socket_read(socket_type sock, void *buf, size_t count)
 {
 	(void)sock;
 	__CPROVER_assert(count >= 1, "C09.read.never-asks-for-zero-bytes");
-	if (nondet_bool()) { verif_errno = nondet_bool() ? EAGAIN : ECONNRESET; return -1; }
+	if (nondet_bool()) { verif_errno = nondet_bool() ? EAGAIN : ECONNRESET; if (verif_errno == ECONNRESET) verif_read_hard_error = true; return -1; }
 	size_t rest = verif_in_len - verif_delivered;
 	if (rest == 0) return nondet_bool() ? 0 : (verif_errno = EAGAIN, -1);
 	size_t n = nondet_size();
@@ -265,4 +266,58 @@ void h_bs_read_until(void)
 	VERIF_COVER(r == 3 && consumed0 > 1, "line of 3 bytes");
 	VERIF_COVER(r == BS_IO_TOOMUCHDATA, "buffer full without delimiter");
 	VERIF_COVER(r == BS_IO_WOULD_BLOCK, "would block");
+}
+
+/* ---- bs.start: the first read request on a connection runs the read loop at once (C09/C13/C05) ---------------
+ * buffered_socket_read_until / read_exactly on a fresh socket: register with the loop, then read until the kernel
+ * would block.  Whatever ends the loop other than would-block / peer-closed / the callback closing the connection
+ * must be reported through the error callback, exactly once; after the callback reports BS_CLOSED the socket
+ * object is not touched again. */
+static unsigned verif_cb_calls; static bool verif_cb_closed; static enum eventloop_return verif_add_ret;
+static struct buffered_socket *verif_bs;
+static enum bs_read_callback_return stub_read_cb(void *ctx, uint8_t *buf, size_t len)
+{
+	(void)ctx; (void)buf;
+	__CPROVER_assert(!verif_cb_closed, "C05.start.no-callback-after-the-connection-was-closed");
+	verif_cb_calls++;
+	verif_consumed += len;
+	if (len == 0 || nondet_bool()) { verif_cb_closed = true; return BS_CLOSED; }
+	return BS_OK;
+}
+static enum eventloop_return stub_add(const void *this_ptr, const struct io_event *ev) { (void)this_ptr; (void)ev; return verif_add_ret; }
+static void stub_remove(void *this_ptr, const struct io_event *ev) { (void)this_ptr; (void)ev; }
+void h_bs_start(void)
+{
+	struct buffered_socket bs;
+	struct eventloop loop; loop.add = stub_add; loop.remove = stub_remove; loop.this_ptr = NULL;
+	for (size_t i = 0; i < IN_MAX; i++) verif_in[i] = nondet_u8();
+	verif_in_len = nondet_size();
+	__CPROVER_assume(verif_in_len <= IN_MAX);
+	verif_delivered = 0; verif_consumed = 0;
+	buffered_socket_init(&bs, 3, &loop, stub_error, NULL);
+	verif_add_ret = nondet_bool() ? EL_CONTINUE_LOOP : EL_ABORT_LOOP;
+	bool until = nondet_bool();
+	size_t num = nondet_size();
+	__CPROVER_assume(num >= 1 && num <= CONFIG_MAX_MESSAGE_SIZE + 1);
+	int r = until ? buffered_socket_read_until(&bs, "\r\n", stub_read_cb, NULL) : buffered_socket_read_exactly(&bs, num, stub_read_cb, NULL);
+	if (verif_add_ret == EL_ABORT_LOOP) {
+		__CPROVER_assert(r == -1 && verif_cb_calls == 0 && verif_error_cb == 0, "C09.start.registration-failure-reported");
+	} else {
+		__CPROVER_assert(r == 0, "C09.start.returns-ok");
+		__CPROVER_assert(verif_error_cb <= 1, "C09.start.error-reported-at-most-once");
+		if (!verif_cb_closed) {
+			size_t unread = verif_delivered - verif_consumed;
+			bool too_long = until ? (unread == CONFIG_MAX_MESSAGE_SIZE) : (num > CONFIG_MAX_MESSAGE_SIZE);
+			if (verif_read_hard_error || too_long)
+				__CPROVER_assert(verif_error_cb == 1, "C13.start.read-error-and-over-long-line-are-reported-through-the-error-callback");
+			else
+				__CPROVER_assert(verif_error_cb == 0, "C09.start.would-block-is-not-an-error");
+		} else {
+			__CPROVER_assert(verif_error_cb == 0, "C05.start.closed-by-callback-is-not-an-error");
+		}
+	}
+	VERIF_COVER(verif_add_ret != EL_ABORT_LOOP && until && !verif_cb_closed && !verif_read_hard_error && verif_delivered - verif_consumed == CONFIG_MAX_MESSAGE_SIZE, "over-long line already readable");
+	VERIF_COVER(verif_add_ret != EL_ABORT_LOOP && verif_cb_calls >= 2 && !verif_cb_closed, "two messages handled, then would block");
+	VERIF_COVER(verif_cb_closed && verif_cb_calls == 1, "closed in the first callback");
+	VERIF_COVER(verif_read_hard_error && !verif_cb_closed, "read error");
 }
